@@ -98,6 +98,47 @@ var rootClasses = map[string]class{
 // functions that only run when UP4.tryConnect found the datapath disconnected
 var reinitEntries = map[string]bool{"UP4.setupChannel": true, "UP4.initialize": true}
 
+// calls that write to the datapath
+var dpWriters = map[string]bool{"P4rtClient.ApplyTableEntries": true, "P4rtClient.ApplyMeterEntries": true, "P4rtClient.WriteBatchReq": true,
+	"P4rtClient.WriteReq": true, "P4rtClient.ClearTables": true}
+
+// atomicSpec: a function that the C11 argument treats as ONE atomic step on a shared object: every access of the
+// guarded fields made by the function and its (exactly resolved) callees has to lie in one and the same acquisition of the
+// lock; NeedDP: the datapath write that belongs to the step has to lie in that acquisition too.
+type atomicSpec struct {
+	Func   string
+	Lock   string
+	Fields []string
+}
+
+var peerFields = []string{"UP4.tunnelPeerIDs", "UP4.tunnelPeerIDsPool", "tunnelPeer.usedBy"}
+var appFields = []string{"UP4.applicationIDs", "UP4.applicationIDsPool", "internalApp.usedBy"}
+var atomicSpecs = []atomicSpec{
+	{"UP4.addOrUpdateGTPTunnelPeer", "UP4.tunnelPeerMu", peerFields},
+	{"UP4.removeGTPTunnelPeer", "UP4.tunnelPeerMu", peerFields},
+	{"UP4.getGTPTunnelPeer", "UP4.tunnelPeerMu", peerFields},
+	{"UP4.addInternalApplicationIDAndGetP4rtEntry", "UP4.applicationMu", appFields},
+	{"UP4.removeInternalApplicationIDAndGetP4rtEntry", "UP4.applicationMu", appFields},
+	{"UP4.updateUEAddrAndFSEIDMappings", "UP4.sessionStateMu", []string{"UP4.ueAddrToFSEID", "UP4.fseidToUEAddr"}},
+	{"UP4.removeUeAddrAndFSEIDMappings", "UP4.sessionStateMu", []string{"UP4.ueAddrToFSEID", "UP4.fseidToUEAddr"}},
+	{"IPPool.LookupOrAllocIP", "IPPool.mu", []string{"IPPool.freePool", "IPPool.inventory"}},
+	{"IPPool.DeallocIP", "IPPool.mu", []string{"IPPool.freePool", "IPPool.inventory"}},
+	{"FTEIDGenerator.Allocate", "FTEIDGenerator.lock", []string{"FTEIDGenerator.offset", "FTEIDGenerator.usedMap"}},
+	{"FTEIDGenerator.FreeID", "FTEIDGenerator.lock", []string{"FTEIDGenerator.offset", "FTEIDGenerator.usedMap"}},
+	{"FTEIDGenerator.IsAllocated", "FTEIDGenerator.lock", []string{"FTEIDGenerator.offset", "FTEIDGenerator.usedMap"}},
+}
+
+type atomicRow struct {
+	Func     string   `json:"func"`
+	Lock     string   `json:"lock"`
+	Found    bool     `json:"found"`
+	Accesses int      `json:"accesses"`
+	Regions  []string `json:"regions"` // distinct acquisitions (or "none") under which the guarded fields are touched
+	Covered  bool     `json:"covered"`
+	DPCalls  int      `json:"dp_calls"`
+	DPInside bool     `json:"dp_inside"`
+}
+
 var safeSetCtors = map[string]bool{"NewSet": true, "NewSetWith": true, "NewSetFromSlice": true}
 var unsafeSetCtors = map[string]bool{"NewThreadUnsafeSet": true, "NewThreadUnsafeSetFromSlice": true}
 
@@ -129,45 +170,69 @@ type funcInfo struct {
 }
 
 type row struct {
-	Field    string   `json:"field"`
-	Func     string   `json:"func"`
-	RW       string   `json:"rw"`
-	Locks    []string `json:"locks"`
-	File     string   `json:"file"`
-	Line     int      `json:"line"`
-	Classes  []class  `json:"classes"`
-	Phase    string   `json:"phase"`
-	Anchored bool     `json:"anchored"`
+	Field    string            `json:"field"`
+	Func     string            `json:"func"`
+	RW       string            `json:"rw"`
+	Locks    []string          `json:"locks"`
+	File     string            `json:"file"`
+	Line     int               `json:"line"`
+	Classes  []class           `json:"classes"`
+	Phase    string            `json:"phase"`
+	Anchored bool              `json:"anchored"`
+	Regions  map[string]string `json:"-"`
 }
 
 type edge struct {
-	From  string   `json:"from"`
-	To    string   `json:"to"`
-	Held  []string `json:"held"`
-	Spawn bool     `json:"spawn,omitempty"`
-	Line  int      `json:"line"`
+	From    string            `json:"from"`
+	To      string            `json:"to"`
+	Held    []string          `json:"held"`
+	Spawn   bool              `json:"spawn,omitempty"`
+	Line    int               `json:"line"`
+	Exact   bool              `json:"exact,omitempty"` // callee resolved by type, not by method name
+	Regions map[string]string `json:"-"`
+}
+
+// dpCall: a call that writes to the datapath (P4Runtime Write / BESS ModuleCommand)
+type dpCall struct {
+	Func    string
+	Line    int
+	Regions map[string]string
 }
 
 type analyzer struct {
-	fset     *token.FileSet
-	structs  map[string]*structInfo
-	funcs    map[string]*funcInfo
-	byMethod map[string][]string // method name -> function keys
-	globals  map[string]ast.Expr
-	imports  map[string]bool
-	rows     []row
-	edges    []edge
-	unsafe   map[string]bool // "Struct.field" assigned a thread-unsafe set somewhere
-	setField map[string]bool // fields of type set.Set
-	notes    []string
+	fset      *token.FileSet
+	structs   map[string]*structInfo
+	funcs     map[string]*funcInfo
+	byMethod  map[string][]string // method name -> function keys
+	globals   map[string]ast.Expr
+	imports   map[string]bool
+	rows      []row
+	edges     []edge
+	unsafe    map[string]bool // "Struct.field" assigned a thread-unsafe set somewhere
+	setField  map[string]bool // fields of type set.Set
+	notes     []string
+	dpcalls   []dpCall
+	exactNext bool
+	nregion   int
 }
 
 type state struct {
-	fn   string
-	file string
-	held []string
-	env  map[string]ast.Expr
-	ngo  *int
+	fn     string
+	file   string
+	held   []string
+	region map[string]string // held lock -> id of the Lock() call that took it (one id per acquisition)
+	env    map[string]ast.Expr
+	ngo    *int
+}
+
+func copyRegions(m map[string]string, held []string) map[string]string {
+	out := map[string]string{}
+	for _, h := range held {
+		if r, ok := m[h]; ok {
+			out[h] = r
+		}
+	}
+	return out
 }
 
 func (s *state) fork() *state {
@@ -175,7 +240,7 @@ func (s *state) fork() *state {
 	for k, v := range s.env {
 		env[k] = v
 	}
-	return &state{fn: s.fn, file: s.file, held: append([]string{}, s.held...), env: env, ngo: s.ngo}
+	return &state{fn: s.fn, file: s.file, held: append([]string{}, s.held...), region: copyRegions(s.region, s.held), env: env, ngo: s.ngo}
 }
 
 func has(l []string, x string) bool {
@@ -403,7 +468,8 @@ func (a *analyzer) record(key string, ftype ast.Expr, rw string, extraLock strin
 		locks = append(locks, extraLock)
 	}
 	p := a.fset.Position(pos)
-	a.rows = append(a.rows, row{Field: key, Func: st.fn, RW: rw, Locks: locks, File: filepath.Base(p.Filename), Line: p.Line})
+	a.rows = append(a.rows, row{Field: key, Func: st.fn, RW: rw, Locks: locks, File: filepath.Base(p.Filename), Line: p.Line,
+		Regions: copyRegions(st.region, st.held)})
 }
 
 func (a *analyzer) recordSel(e ast.Expr, rw string, st *state) {
@@ -422,7 +488,11 @@ func (a *analyzer) recordSel(e ast.Expr, rw string, st *state) {
 }
 
 func (a *analyzer) addEdge(to string, spawn bool, pos token.Pos, st *state) {
-	a.edges = append(a.edges, edge{From: st.fn, To: to, Held: append([]string{}, st.held...), Spawn: spawn, Line: a.fset.Position(pos).Line})
+	a.edges = append(a.edges, edge{From: st.fn, To: to, Held: append([]string{}, st.held...), Spawn: spawn, Line: a.fset.Position(pos).Line,
+		Exact: a.exactNext, Regions: copyRegions(st.region, st.held)})
+	if dpWriters[to] {
+		a.dpcalls = append(a.dpcalls, dpCall{Func: st.fn, Line: a.fset.Position(pos).Line, Regions: copyRegions(st.region, st.held)})
+	}
 }
 
 // ---------------------------------------------------------------------------------- expressions
@@ -511,7 +581,9 @@ func (a *analyzer) call(c *ast.CallExpr, st *state, deferred bool) {
 		}
 		if _, ok := a.funcs[f.Name]; ok {
 			if _, local := st.env[f.Name]; !local {
+				a.exactNext = true
 				a.addEdge(f.Name, false, c.Pos(), st)
+				a.exactNext = false
 			}
 		}
 	case *ast.FuncLit:
@@ -536,6 +608,11 @@ func (a *analyzer) call(c *ast.CallExpr, st *state, deferred bool) {
 					if !has(st.held, name) {
 						st.held = append(st.held, name)
 					}
+					if st.region == nil {
+						st.region = map[string]string{}
+					}
+					a.nregion++
+					st.region[name] = fmt.Sprintf("%s#%d", st.fn, a.nregion)
 				case "Unlock", "RUnlock":
 					if !deferred {
 						out := []string{}
@@ -577,7 +654,9 @@ func (a *analyzer) call(c *ast.CallExpr, st *state, deferred bool) {
 				}
 			default:
 				if k := a.findMethod(rt, f.Sel.Name, 0); k != "" {
+					a.exactNext = true
 					a.addEdge(k, false, c.Pos(), st)
+					a.exactNext = false
 				} else if key, _ := a.fieldKey(f, st); key == "" && !stringerNames[f.Sel.Name] {
 					// interface value (possibly an embedded one, as upf.datapath), or unresolved receiver:
 					// every method of that name in the package may be the target
@@ -611,7 +690,9 @@ func (a *analyzer) expr(e ast.Expr, st *state) {
 			a.recordSel(x, "R", st)
 		} else if k := a.findMethod(typeString(a.typeOf(x.X, st)), x.Sel.Name, 0); k != "" {
 			// method value (e.g. once.Do(pConn.doShutdown)): it may be called from here
+			a.exactNext = true
 			a.addEdge(k, false, x.Pos(), st)
+			a.exactNext = false
 		}
 		a.expr(x.X, st)
 	case *ast.CallExpr:
@@ -1320,6 +1401,100 @@ func main() {
 	sb.WriteString(strings.Join(lines, ";\n"))
 	sb.WriteString("\n].\n")
 
+	// ---- atomic regions
+	regionOf := func(m map[string]string, lock string) string {
+		if r, ok := m[lock]; ok {
+			return r
+		}
+		if r, ok := m[lock+"#r"]; ok {
+			return r
+		}
+		return ""
+	}
+	atomicRows := []atomicRow{}
+	for _, sp := range atomicSpecs {
+		ar := atomicRow{Func: sp.Func, Lock: sp.Lock, Regions: []string{}}
+		if fi, ok := a.funcs[sp.Func]; ok && fi.body != nil {
+			ar.Found = true
+			regs := map[string]bool{}
+			dpRegs := map[string]bool{}
+			type item struct{ fn, inherited string }
+			seen := map[item]bool{}
+			stack := []item{{sp.Func, ""}}
+			for len(stack) > 0 {
+				it := stack[len(stack)-1]
+				stack = stack[:len(stack)-1]
+				if seen[it] {
+					continue
+				}
+				seen[it] = true
+				for _, r := range a.rows {
+					if r.Func != it.fn || !has(sp.Fields, r.Field) {
+						continue
+					}
+					reg := regionOf(r.Regions, sp.Lock)
+					if reg == "" {
+						reg = it.inherited
+					}
+					if reg == "" {
+						reg = "none"
+					}
+					regs[reg] = true
+					ar.Accesses++
+				}
+				for _, d := range a.dpcalls {
+					if d.Func != it.fn {
+						continue
+					}
+					reg := regionOf(d.Regions, sp.Lock)
+					if reg == "" {
+						reg = it.inherited
+					}
+					if reg == "" {
+						reg = "none"
+					}
+					dpRegs[reg] = true
+					ar.DPCalls++
+				}
+				for _, e := range callees[it.fn] {
+					if e.Spawn || !e.Exact || dpWriters[e.To] {
+						continue
+					}
+					inh := regionOf(e.Regions, sp.Lock)
+					if inh == "" {
+						inh = it.inherited
+					}
+					stack = append(stack, item{e.To, inh})
+				}
+			}
+			for r := range regs {
+				ar.Regions = append(ar.Regions, r)
+			}
+			sort.Strings(ar.Regions)
+			ar.Covered = len(ar.Regions) == 1 && ar.Regions[0] != "none" && ar.Accesses > 0
+			ar.DPInside = ar.Covered && ar.DPCalls > 0 && len(dpRegs) == 1 && dpRegs[ar.Regions[0]]
+		}
+		atomicRows = append(atomicRows, ar)
+	}
+	sb.WriteString("\n(* atomic regions: function, lock, accesses of the guarded fields (callees included), all of them in ONE acquisition\n")
+	sb.WriteString("   of the lock?, datapath writes among them, all datapath writes inside that acquisition? *)\n")
+	sb.WriteString("Definition atomic_tbl : list atomic_fn := [\n")
+	alines := []string{}
+	bs := func(b bool) string {
+		if b {
+			return "true"
+		}
+		return "false"
+	}
+	for _, ar := range atomicRows {
+		if !ar.Found {
+			continue
+		}
+		alines = append(alines, fmt.Sprintf("  AF %s %s %d %s %d %s", q(ar.Func), q(ar.Lock), ar.Accesses, bs(ar.Covered), ar.DPCalls, bs(ar.DPInside)))
+	}
+	sb.WriteString(strings.Join(alines, ";\n"))
+	sb.WriteString("\n].\n")
+
 	entryOut := map[string][]string{}
 	for k, v := range entry {
 		if len(v) > 0 {
@@ -1339,7 +1514,7 @@ func main() {
 	sort.Strings(unsafeOut)
 	out := map[string]interface{}{
 		"rows": a.rows, "coq": sb.String(), "entry_locks": entryOut, "roots": rootOut, "files": names,
-		"n_functions": len(a.funcs), "n_edges": len(a.edges), "coq_rows": len(lines), "unsafe_sets": unsafeOut,
+		"n_functions": len(a.funcs), "n_edges": len(a.edges), "coq_rows": len(lines), "unsafe_sets": unsafeOut, "atomic": atomicRows,
 	}
 	enc := json.NewEncoder(os.Stdout)
 	if err := enc.Encode(out); err != nil {
